@@ -311,6 +311,9 @@ func TestCheck(t *testing.T) {
 			mk("2sync-errors", scen{recs: []rec{{10, S}, {20, S}}, errs: true}, 1, 2, 2),
 			mk("2sync-external-queue", scen{recs: []rec{{10, S}, {20, S}}, external: true}, 1, 2, 1),
 			mk("bigrecord-sync", scen{recs: []rec{{40000, S}, {10, S}}}, 1, 2, 1),
+			// a record that fills whole 32 KiB blocks (queued on flusher.pending) with a transient
+			// write error: the error must reach the waiter although the tail write and the sync succeed
+			mk("bigrecord-errors", scen{recs: []rec{{10, S}, {70000, S}}, errs: true}, 1, 2, 2),
 			mk("2sync-wait-acks-then-close", scen{recs: []rec{{10, S}, {20, S}}, waitAcks: true}, 1, 2, 1),
 			mk("2sync-minsync-errors-wait-acks", scen{recs: []rec{{10, S}, {20, S}}, minSync: true, errs: true, waitAcks: true}, 1, 2, 2),
 		}
